@@ -201,6 +201,7 @@ def run(ctx):
         if len(mt) != len(ot) or any(not same(a, b) for a, b in zip(mt, ot)):
             res["disagreements"].append({"chain": rec["chain"], "cues": cues, "model": [show(x) for x in mt],
                                          "impl": [show(x) for x in ot]})
+    stream_short(ctx, res)
     dist["chain_length_histogram"] = lens
     dist["pairs"] = len(pairs)
     dist["sets_per_pair"] = per_pair
@@ -222,6 +223,61 @@ def run(ctx):
                                 "level)", "several languages through DFXP / SAMI"]}
     res["samples"] = [{"chain": [FMT[f] for f in work[0][0]], "cues": work[0][3], "text": work[0][4]}]
     return res
+
+
+def short_case(rng):
+    k = rng.randrange(3)
+    if k == 0:      # a cue inside MicroDVD frame 0 is written {0}{0}text = the frame-rate header spelling
+        e = rng.randrange(2, 40000)
+        s = rng.randrange(0, e)
+        a = 40000 + rng.randrange(0, 10**6)
+        cues = [(s, e), (a, a + 40000 + rng.randrange(10**6))]
+        return "mdvd-frame0", [4] + [rng.randrange(5) for _ in range(rng.randint(0, 2))], cues
+    if k == 1:      # two cues inside one millisecond collapse to equal spans; the SRT writer merges them
+        base = rng.randrange(1, 10**6) * 1000
+        cues = [(base + 100, base + 400), (base + 500, base + 900), (base + 5000, base + 9000)]
+        return "merged-by-srt", [rng.choice([1, 2]), 0], cues
+    base = rng.randrange(1, 10**6) * 1000   # a cue shorter than 1 ms through SAMI: blank sync at its own start ms
+    cues = [(base + 100, base + 400), (base + 2000, base + 3000)]
+    return "sami-end", [3], cues
+
+
+def run_short(shape, chain, cues):
+    """(deviates, kind, observation)"""
+    texts = [["w%d" % i] for i in range(len(cues))]
+    cs = build([(cues, texts)])
+    t1, cs1 = run_chain(chain, cs)
+    exp = oracle1(801, [chain, [list(c) for c in cues]])[0]
+    fin = final_times(t1, 0, len(chain))
+    if isinstance(fin, Ok) and fin.v == exp and text_mismatch(t1, 0, texts) is None:
+        return False, None, show(fin)
+    kind = "short-cue-unexpected"
+    if shape == "mdvd-frame0" and t1 and isinstance(t1[0], Err) and t1[0].code == 3:
+        kind = "short-cue-mdvd-frame0"
+    elif shape == "merged-by-srt" and isinstance(fin, Ok) and len(fin.v) == len(cues) - 1 and fin.v == [exp[0]] + exp[2:]:
+        kind = "short-cue-merged-by-srt"
+    elif shape == "sami-end" and isinstance(fin, Ok) and len(fin.v) == 2 and fin.v[1] == exp[1] \
+            and fin.v[0] == [exp[0][0], exp[1][0]]:
+        kind = "short-cue-sami-end"
+    return True, kind, show(fin)
+
+
+def stream_short(ctx, res):
+    """cues shorter than the chain's resolution - outside the domain of the theorems.  The three shapes are recorded
+    findings (known_findings.d/C08-*.json, matched by kind); any other deviation here is an ordinary violation."""
+    n = ctx.n(45, 600)
+    d = res["distribution"]
+    for _ in range(n):
+        shape, chain, cues = short_case(ctx.rng)
+        dev, kind, obs = run_short(shape, chain, cues)
+        res["evaluations"] += 1
+        d["short_cue_cases"] = d.get("short_cue_cases", 0) + 1
+        if dev:
+            d[kind] = d.get(kind, 0) + 1
+            res["violations"].append({
+                "kind": kind, "shape": shape, "chain": [FMT[f] for f in chain], "chain_codes": chain, "cues": cues,
+                "what": "chain %s on cues shorter than its resolution %s: %s" % ("->".join(FMT[f] for f in chain), cues, obs),
+                "replay": "short"})
 
 
 def hop_times(o, li):
@@ -264,6 +320,9 @@ def show(o):
 
 
 def replay(ctx, rec):
+    if rec.get("replay") == "short":
+        dev, kind, obs = run_short(rec["shape"], rec["chain_codes"], [tuple(c) for c in rec["cues"]])
+        return dev, [kind, obs]
     chain = rec["chain_codes"]
     langs = [([tuple(c) for c in cu], tx) for (cu, tx) in rec["input"]]
     li = rec["lang_index"]
